@@ -44,7 +44,8 @@ def decPair (f : SExp → Option β) : SExp → Option (Str × β)
 def decMap : SExp → Option Map := decList (decPair decVal)
 def encMap (m : Map) : SExp := .list (m.map fun kv => .list [encStr kv.1, encVal kv.2])
 def decFile : SExp → Option FileC := decList (decPair (decList (decPair decStr)))
-def encSect (s : Sect) : SExp := .list (s.map fun kv => .list [encStr kv.1, encStr kv.2])
+/-- a section as a reader of the written file sees it (values stripped) -/
+def encSect (s : Sect) : SExp := .list (s.map fun kv => .list [encStr kv.1, encStr (strip kv.2)])
 def encIni (c : Ini) : SExp :=
   .list (c.toFile.map fun sec => .list [encStr sec.1, encSect sec.2])
 
